@@ -26,6 +26,14 @@ def prepare_scratch(prop, groups):
         hfile = os.path.join(VERIF, "kani", info["file"])
         if not os.path.exists(hfile):
             continue
+        if "incrate_unit" in info:
+            # fragments lifted by vx (R6) that need the real crate's types: generated into the scratch copy and
+            # include!d by the harness module
+            gen = gen_unit(info["incrate_unit"], None, outdir=os.path.join(WORK, "gen", prop), vac=False)
+            if gen["rc"] != 0:
+                attached.append({"group": g, "error": "extraction: " + gen["out"].strip()[-400:]})
+                continue
+            shutil.copyfile(gen["rs"], os.path.join(dst, "src", f"verif_frag_{g}.rs"))
         modfile = os.path.join(dst, info["attach"])
         with open(modfile, "a") as f:
             f.write(f'\n#[cfg(kani)]\n#[path = "{hfile}"]\nmod verif_kani_{g};\n')
@@ -45,6 +53,7 @@ def prepare_fragment(prop, g):
     with open(os.path.join(d, "Cargo.toml"), "w") as f:
         f.write(f'[package]\nname = "frag_{g}"\nversion = "0.0.0"\nedition = "2021"\n[lib]\npath = "src/lib.rs"\n[workspace]\n')
     with open(os.path.join(d, "src", "lib.rs"), "w") as f:
+        f.write("#![allow(unused)]\n")
         f.write(open(gen["rs"]).read())
         f.write(f'\n#[cfg(kani)]\n#[path = "{hfile}"]\nmod verif_kani_{g};\n')
     return d, ""
@@ -170,10 +179,15 @@ def run_groups(prop, cfg, tier):
     src, attached = prepare_scratch(prop, [g for g in need if "fragment_unit" not in KANI_GROUPS[g]])
     result["attached"] = attached
     result["src"] = src
+    attach_errors = {a["group"]: a["error"] for a in attached if "error" in a}
     for g, names in cfg["kani"]:
         info = KANI_GROUPS[g]
         hfile = os.path.join(VERIF, "kani", info["file"])
         gres = {"group": g, "harnesses": [], "complete": info["complete"]}
+        if g in attach_errors:
+            gres["error"] = attach_errors[g]
+            result["groups"].append(gres)
+            continue
         if not os.path.exists(hfile):
             gres["error"] = f"harness file {info['file']} missing"
             result["groups"].append(gres)
@@ -202,7 +216,8 @@ def run_groups(prop, cfg, tier):
             if n in parsed:
                 gres["harnesses"].append(parsed[n])
             else:
-                tail = r["out"].strip()[-600:]
+                errs = [l for l in r["out"].splitlines() if l.startswith("error")]
+                tail = (" | ".join(errs[:3]) or r["out"].strip()[-200:])[:300]
                 gres["harnesses"].append({"name": n, "status": "undecided", "reason": "no result (build error, timeout or out of memory): " + tail,
                                           "failed_checks": [], "checks": 0})
         result["groups"].append(gres)
